@@ -132,6 +132,19 @@ class Algebra:
                         for at2, w in self.apply(a[1], []):
                             out.append((at + at2, ("agg", ERR, (w,))))
                 return out
+            if c in (O + "or", O + "or_else") and len(a) == 2:
+                out = []
+                for at, v in self.split(a[0], SOME, NONE, IS_SOME):
+                    if _is_agg(v, SOME):
+                        out.append((at, v))
+                    elif c.endswith("or_else"):
+                        for at2, w in self.apply(a[1], []):
+                            for at3, w2 in self.expand(w):
+                                out.append((at + at2 + at3, w2))
+                    else:
+                        for at3, w2 in self.expand(a[1]):
+                            out.append((at + at3, w2))
+                return out
             if c in (O + "map_or_else", O + "map_or", O + "unwrap_or_else", O + "unwrap_or") and len(a) in (2, 3):
                 # Some(x) => f(x) (or x), None => the default
                 out = []
